@@ -317,7 +317,10 @@ func judge(p *Program, dir string, r *rng, o judgeOpts, only *Mutation) {
 	for _, lbl := range a.order {
 		if wres, ok := a.wires[lbl]; ok {
 			count("decoded_wiring_checks", 1)
-			if wres != "ok" {
+			if strings.HasPrefix(wres, "ok lost=") {
+				// struct / module keys cannot be represented in a decoded environment (observation, see wire.go)
+				hist("decoded_env_lacks_unhashable_keys", featureOf(p, lbl))
+			} else if wres != "ok" {
 				violation("decoded-miswired", featureOf(p, lbl), lbl, "decode(fingerprint) differs from the environment: "+wres, p, only)
 			}
 		}
